@@ -96,7 +96,8 @@ def split_guard(db, ctx):
     detail = ""
     if len(loops) == 1:
         n, (it, pat, body), ps = loops[0]
-        plain = local_name(it) == "path"
+        from ..db import param_roles, is_local
+        plain = is_local(it, param_roles(f, {"path": lambda t: "Vec<" in t and "ResultNode" in t}).get("path"))
         node_lids = {l for l, _ in __import__("sverif.origins", fromlist=["pat_bindings"]).pat_bindings(pat)}
         pushes = [x for x, _ in walk(body) if x.get("k") == "MethodCall" and x.get("method") == "push" and peel(x["args"][0]).get("lid") in node_lids]
         exts = [x for x, _ in walk(body) if x.get("k") == "MethodCall" and x.get("method") == "extend" and mentions(x, is_call_to("ResultNode::split"))]
@@ -115,7 +116,9 @@ def split_guard(db, ctx):
     ctx.ob("loop-shape", ok, "split_path loop: %s" % detail, fn=f)
     ns = [c for c, _ in walk(f.hir) if is_call(c) and path_ends(callee(c), "ResultNode::num_splits")]
     sp = [c for c, _ in walk(f.hir) if is_call(c) and path_ends(callee(c), "ResultNode::split")]
-    same_mode = bool(ns) and bool(sp) and render(call_args(ns[0])[1]) == "mode" and render(call_args(sp[0])[1]) == "mode"
+    from ..inline import nf as _nfm
+    mode_lid = param_roles(f, {"mode": lambda t: t.endswith("Mode")}).get("mode")
+    same_mode = bool(ns) and bool(sp) and is_local(call_args(ns[0])[1], mode_lid) and is_local(call_args(sp[0])[1], mode_lid)
     ctx.ob("same-mode", same_mode, "num_splits and split receive the same `mode`: %s" % same_mode, fn=f)
 
 
@@ -160,6 +163,8 @@ def pairing(db, ctx):
         ctx.ob("%s|mode->flag" % nm, ok, "%s maps %s (must be A->SPLIT_A, B->SPLIT_B, otherwise empty)" % (nm, {k: sorted(v) for k, v in got.items()}), fn=f)
         # which mode is matched: set_mode must look at the NEW mode (its parameter), set_subset at the tokenizer's current mode
         want_scr = "mode" if nm == "set_mode" else "self.mode"
+        from ..inline import pcanon
+        scr = pcanon(f, scr, "mode") if nm == "set_mode" else scr            # the parameter by position, whatever it is called
         ctx.ob("%s|matches-%s" % (nm, "new-mode" if nm == "set_mode" else "current-mode"), scr == want_scr,
                "%s matches on `%s` (must be `%s`: %s)" % (nm, scr, want_scr, "the mode being set — matching the old mode adds the old mode's split list and the new mode's "
                                                          "units are never loaded under a restricted field subset" if nm == "set_mode" else "the tokenizer's mode"), fn=f)
@@ -267,10 +272,12 @@ def closure(db, ctx):
     ok = any(n.get("k") == "AssignOp" and n.get("op") == "BitOr" and "subset" in render(n["l"]) for n, _ in walk(sm.hir))
     ctx.ob("set_mode|ors-flag", ok, "set_mode does `self.subset |= <mode flag>`: %s" % ok, fn=sm)
     ss = db.one("set_subset", "StatefulTokenizer")
+    from ..inline import pnames
+    _ss_param = (pnames(ss) + [None])[0]
     from ..db import walk_x, deref_let
     isM = lambda x: (x.get("k") == "Match" or is_call(x)) and _mode_flag_expr(db, ss, x) is not None
     is_norm = lambda x: x.get("k") == "MethodCall" and x.get("method") == "normalize" and any(isM(y) for y, _ in walk_x(x["recv"])) \
-        and any(local_name(y) == "subset" for y, _ in walk_x(x["recv"]))
+        and any(local_name(y) is not None and local_name(y) == _ss_param for y, _ in walk_x(x["recv"]))
     norm = any(is_norm(c) for c, _ in walk(ss.hir))
     readd = False
 
@@ -317,14 +324,16 @@ def shared_input(db, ctx):
     arg_ok = any(x.get("k") == "MethodCall" and x.get("method") == "assign_input" and local_name(x["args"][0]) == "self" for x, _ in walk(f.hir))
     ctx.ob("assign-input-first", bool(ok) and arg_ok, "call order %s; assign_input(self)=%s" % (order, arg_ok), fn=f)
     spc = [x for x, _ in walk(f.hir) if is_call(x) and path_ends(callee(x), "ResultNode::split")]
-    ok2 = bool(spc) and render(call_args(spc[0])[1]) == "mode" and "subset" in render(call_args(spc[0])[3], x=True) and "input" in render(call_args(spc[0])[4], x=True)
+    from ..inline import pcanon
+    _pc = lambda t: pcanon(f, t, "mode", "index", "out")
+    ok2 = bool(spc) and _pc(render(call_args(spc[0])[1])) == "mode" and ".subset" in render(call_args(spc[0])[3], x=True) and ".input" in render(call_args(spc[0])[4], x=True)
     ctx.ob("split-args", ok2, "node.split(%s)" % (", ".join(render(a) for a in call_args(spc[0])[1:]) if spc else None), fn=f)
-    node_src = bool(spc) and "self.node(index)" in render(call_args(spc[0])[0], x=True)
+    node_src = bool(spc) and "self.node(index)" in _pc(render(call_args(spc[0])[0], x=True))
     ctx.ob("node=self.node(index)", node_src, "the split node is self.node(index): %s" % node_src, fn=f)
     # assign_input itself: afterwards the list shares the OTHER list's input whenever the two differed
     ai = db.view(db.one("assign_input", "MorphemeList"))
     from ..inline import nf as _nf2
-    asg = [n for n, _ in walk(ai.hir) if n.get("k") == "Assign" and _nf2(n["l"]) == "self.input" and "other.input" in _nf2(n["r"])]
+    asg = [n for n, _ in walk(ai.hir) if n.get("k") == "Assign" and _nf2(n["l"]) == "self.input" and "other.input" in pcanon(ai, _nf2(n["r"]), "other")]
 
     def ev_same(same):
         def ev(atom):
